@@ -33,6 +33,29 @@ fn rq_m(k: &RQKernel, form: usize, xs: &[f64], ys: &[f64]) -> Matrix {
     }
 }
 
+/// an argument of kind 0 = Vector, 1 = &Vector, 2 = Matrix, 3 = &Matrix holding `d` (r x c for the Matrix kinds) for BOTH point sets
+fn rbf_p(k: &RBFKernel, kind: usize, (rx, cx, xs): (usize, usize, &[f64]), (ry, cy, ys): (usize, usize, &[f64])) -> Matrix {
+    match kind {
+        0 => k.forward(Vector::new(xs.to_vec()), Vector::new(ys.to_vec())),
+        1 => k.forward(&Vector::new(xs.to_vec()), &Vector::new(ys.to_vec())),
+        2 => k.forward(Matrix::new(xs.to_vec(), rx as i32, cx as i32), Matrix::new(ys.to_vec(), ry as i32, cy as i32)),
+        _ => k.forward(&Matrix::new(xs.to_vec(), rx as i32, cx as i32), &Matrix::new(ys.to_vec(), ry as i32, cy as i32)),
+    }
+}
+fn rq_p(k: &RQKernel, kind: usize, (rx, cx, xs): (usize, usize, &[f64]), (ry, cy, ys): (usize, usize, &[f64])) -> Matrix {
+    match kind {
+        0 => k.forward(Vector::new(xs.to_vec()), Vector::new(ys.to_vec())),
+        1 => k.forward(&Vector::new(xs.to_vec()), &Vector::new(ys.to_vec())),
+        2 => k.forward(Matrix::new(xs.to_vec(), rx as i32, cx as i32), Matrix::new(ys.to_vec(), ry as i32, cy as i32)),
+        _ => k.forward(&Matrix::new(xs.to_vec(), rx as i32, cx as i32), &Matrix::new(ys.to_vec(), ry as i32, cy as i32)),
+    }
+}
+/// a factorisation r * c = n (n >= 1), every divisor equally likely
+fn shape_of(r: &mut Rng, n: usize) -> (usize, usize) {
+    let ds: Vec<usize> = (1..=n).filter(|d| n % d == 0).collect();
+    let d = *r.pick(&ds); (d, n / d)
+}
+
 pub fn gen(tier: &str, seed: u64, outdir: &str) {
     let thorough = tier == "thorough";
     let mut r = Rng::new(seed ^ 0xC20);
@@ -59,6 +82,22 @@ pub fn gen(tier: &str, seed: u64, outdir: &str) {
         let (t, e) = rec(|| mat_out(&rq_m(&RQKernel::new(var, al, ls), form, &xs, &ys)));
         cs.push(app("CRqM", vec![libm_table(&t), Tm::Nat(form as u64), Tm::F(var), Tm::F(al), Tm::F(ls), fl(&xs), fl(&ys), outcome_list(&e)]), &format!("rq/matrix/form{}", form), xs.len() >= 2 || ys.len() >= 2);
     }
+    // the plumbing on every argument kind, any Matrix shape (reshape(-1, 1) flattens it), and empty point sets (Vector kinds: panic)
+    for i in 0..40 * k {
+        let (var, ls, al) = (param(&mut r), param(&mut r), param(&mut r));
+        let kind = (i % 4) as usize;
+        let empty = kind < 2 && i % 16 < 2;   // kinds 0 and 1: one case in eight has an empty point set
+        let (n, m) = (1 + r.below(maxn) as usize, 1 + r.below(maxn) as usize);
+        let (n, m) = if empty { if i % 32 < 16 { (0, m) } else { (n, 0) } } else { (n, m) };
+        let (xs, ys) = (points(&mut r, n), points(&mut r, m));
+        let ((rx, cx), (ry, cy)) = if kind >= 2 { (shape_of(&mut r, n), shape_of(&mut r, m)) } else { ((1, n), (1, m)) };
+        let (t, e) = rec(|| mat_out(&rbf_p(&RBFKernel::new(var, ls), kind, (rx, cx, &xs), (ry, cy, &ys))));
+        cs.push(app("CRbfP", vec![libm_table(&t), Tm::Nat(kind as u64), Tm::F(var), Tm::F(ls), Tm::Nat(rx as u64), Tm::Nat(cx as u64), fl(&xs), Tm::Nat(ry as u64), Tm::Nat(cy as u64), fl(&ys), outcome_list(&e)]),
+                &format!("rbf/plumbing/kind{}{}", kind, if empty { "/empty" } else { "" }), empty || n >= 2 || m >= 2);
+        let (t, e) = rec(|| mat_out(&rq_p(&RQKernel::new(var, al, ls), kind, (rx, cx, &xs), (ry, cy, &ys))));
+        cs.push(app("CRqP", vec![libm_table(&t), Tm::Nat(kind as u64), Tm::F(var), Tm::F(al), Tm::F(ls), Tm::Nat(rx as u64), Tm::Nat(cx as u64), fl(&xs), Tm::Nat(ry as u64), Tm::Nat(cy as u64), fl(&ys), outcome_list(&e)]),
+                &format!("rq/plumbing/kind{}{}", kind, if empty { "/empty" } else { "" }), empty || n >= 2 || m >= 2);
+    }
     // constructors: valid and invalid parameters
     for _ in 0..60 {
         let p: Vec<f64> = (0..3).map(|_| *r.pick(&[1.0, 0.5, 0.0, -0.0, -1.0, 1e-300, f64::INFINITY, -2.5, 3.0])).collect();
@@ -67,7 +106,7 @@ pub fn gen(tier: &str, seed: u64, outdir: &str) {
         let e = catch(|| { RQKernel::new(p[0], p[1], p[2]); vec![] });
         cs.push(app("CRqNew", vec![Tm::F(p[0]), Tm::F(p[1]), Tm::F(p[2]), outcome_list(&e)]), "rq/new", e.is_err());
     }
-    cs.write(outdir, 150, "kernel parameters log-uniform in (1e-2,1e2); scalar pairs in +-1e3 (equal, within a length scale, far apart, unrelated), owned and borrowed; matrix form on point sets of 1..14 (quick) / 1..60 (thorough) points passed as Vector or Matrix (row or column shaped), owned or borrowed, equal and different sets; constructors with valid and invalid parameters; every case carries the libm calls (exp, pow); non-trivial = distinct arguments (scalar), at least 2 points (matrix), rejected parameters (constructors); distinct by hash");
+    cs.write(outdir, 150, "kernel parameters log-uniform in (1e-2,1e2); scalar pairs in +-1e3 (equal, within a length scale, far apart, unrelated), owned and borrowed; matrix form on point sets of 1..14 (quick) / 1..60 (thorough) points passed as Vector or Matrix (row or column shaped), owned or borrowed, equal and different sets; the same through the composed component models on every argument kind with Matrix arguments of any shape r x c (flattened by reshape(-1, 1)) and empty Vector point sets (panic); constructors with valid and invalid parameters; every case carries the libm calls (exp, pow); non-trivial = distinct arguments (scalar), at least 2 points (matrix), rejected parameters (constructors); distinct by hash");
 }
 
 fn jacobi_min_eig(a: &mut Vec<Vec<f64>>) -> f64 {
@@ -138,7 +177,9 @@ pub fn oracle(tier: &str, seed: u64) -> (u64, Vec<Finding>) {
                         let (a, b) = (g[[i, j]], sc(xs[i], ys[j]));
                         // cancellation in x^2 + y^2 - 2xy: absolute error eps*(|x|+|y|)^2 in the squared distance
                         let u = 4.0 * f64::EPSILON * (xs[i].abs() + ys[j].abs()).powi(2) / (2.0 * ls * ls) * if name == "rbf" { 1.0 } else { 1.0 };
-                        let tol = b.abs() * (u.exp() - 1.0 + 64.0 * f64::EPSILON * (1.0 + al));
+                        // results in the subnormal range are quantised to 2^-1074: exp / powf may each be off by one such unit before the
+                        // multiplication by var (seen at thorough: k = 3.3e-312 with var = 3 differs by 3 units), so the allowance has an absolute floor
+                        let tol = b.abs() * (u.exp() - 1.0 + 64.0 * f64::EPSILON * (1.0 + al)) + (2.0 * var + 2.0) * f64::from_bits(1);
                         if !((a - b).abs() <= tol) { add(&mut out, &format!("{}:matrix-entry-differs-from-scalar", name), format!("entry ({},{}) = {:e}, scalar form {:e}", i, j, a, b), inp.clone()); }
                     }}
                 }
